@@ -1,7 +1,7 @@
 """Per-property checks.  Each takes a Ctx (harness built from the working tree, tables exported,
 spec copied into the scratch directory) and returns the exit code."""
 import glob, json, os, random, shutil, subprocess, sys, tempfile
-from .core import Ctx, Infra, finish, log, sessions, large_inputs, VERIF, REPO, TLA_CP, GOENV, NCPU
+from .core import Ctx, Infra, finish, log, sessions, large_inputs, repetitions, VERIF, REPO, TLA_CP, GOENV, NCPU
 
 Q = lambda s: '"%s"' % s  # TLA+ string constant
 
@@ -168,6 +168,7 @@ def tree_family(ctx, relevant, flavor, rule):
         raise Infra("model-level invariant %s failed but the real code agrees with the model's predictions: specification problem" % ctx.model_violation)
     sessions(ctx)
     large_inputs(ctx)
+    repetitions(ctx)
     return finish(ctx, relevant=relevant, rule=rule)
 
 
@@ -225,10 +226,20 @@ def c07(ctx):
     r = ctx.run_tlc("allowedspell-sameid", "MC_AllowedSpell", "MC_AllowedSpell", timeout=3000)
     if r["violated"]:
         raise Infra("model-level invariant %s failed in MC_AllowedSpell (specification problem, not a verdict)" % r["violated"])
+    # reference names that differ only in letter case (names are case-sensitive), next to a late-sorting entry
+    uni3 = ["LicenseRef-Acme", "LicenseRef-acme", "DocumentRef-D:LicenseRef-x", "DocumentRef-d:LicenseRef-x", z]
+    exprs3 = ["LicenseRef-acme", "LicenseRef-Acme AND " + z, "DocumentRef-d:LicenseRef-x OR LicenseRef-acme"]
+    ctx.write_params("MC_AllowedSpell_P", {"Exprs": tla_seq(exprs3), "Universe": tla_seq(uni3 if thorough else uni3[:2] + uni3[3:]), "MaxDup": "1",
+                                           "MaxResp": "1", "MixK": str(ctx.seed % 2)})
+    ctx.notes.append("allowedspell-casetwins: exprs=%s universe=%s" % (exprs3, uni3))
+    r = ctx.run_tlc("allowedspell-casetwins", "MC_AllowedSpell", "MC_AllowedSpell", timeout=3000)
+    if r["violated"]:
+        raise Infra("model-level invariant %s failed in MC_AllowedSpell (specification problem, not a verdict)" % r["violated"])
     ctx.drive("trace", "sat", 1200 if thorough else 300, leaves=6)
     ctx.validate_trace("trace")
     sessions(ctx)
     large_inputs(ctx)
+    repetitions(ctx)
     return finish(ctx, relevant={"verdict", "non-monotone", "verdict-depends-on-list-form"},
                   rule="every non-empty sub-list of the allowed universe in every order, with one entry duplicated and one (thorough: two) "
                        "entries re-spelled (case of listed ids, blanks, one/two pairs of parentheses): the model proves the list denotes the "
@@ -270,6 +281,7 @@ def c10(ctx):
     ctx.validate_trace("trace")
     sessions(ctx)
     large_inputs(ctx)
+    repetitions(ctx)
     return finish(ctx, relevant={"verdict", "extract", "extract-invented", "extract-missing", "extract-duplicate", "extract-error", "non-monotone"},
                   rule="every tree up to 3 leaves x every chain of rewrites (commute, re-associate, idempotence, absorption, distribution both "
                        "ways) applied at any node x 3 renderings (minimal/full parentheses, widened blanks) x all allowed subsets: the real "
@@ -480,6 +492,7 @@ def c02(ctx):
             raise Infra("model-level invariants %s failed but the real code agrees with the model's predictions" % viol)
     sessions(ctx)
     large_inputs(ctx)
+    repetitions(ctx)
     return finish(ctx, relevant={"match", "verdict"},
                   rule="ordered pairs of single-term texts built from the shipped tables (every table family and natural family x spellings x "
                        "exceptions, cross pairs of listed ids, LicenseRefs); TLC: operational matcher = C02's rule, symmetry, reflexivity, "
@@ -496,6 +509,7 @@ def c11(ctx):
     ctx.validate_trace("trace")
     sessions(ctx)
     large_inputs(ctx)
+    repetitions(ctx)
     return finish(ctx, relevant={"plus-natural-order", "plus-natural-order-duplicate-position", "match-duplicate-position",
                                  "verdict-duplicate-position", "verdict", "match", "table-Listed", "table-OnePosition", "table-OneShape",
                                  "table-Ascending", "table-Complete", "table-Disjoint"},
@@ -571,6 +585,7 @@ def c08(ctx):
         raise Infra("model-level invariants %s failed but no disagreement was reproduced on the real code" % viol)
     sessions(ctx)
     large_inputs(ctx)
+    repetitions(ctx)
     return finish(ctx, relevant=rel_whats,
                   rule="listed ids x {X ~ X-only, X+ ~ X-or-later} x contexts (expression side / allowed side against family members with and "
                        "without '+', none/same/other exception, six syntactic contexts); TLC: the model predicts identical results for both "
@@ -630,6 +645,7 @@ def c09(ctx):
             raise Infra("model-level invariants %s failed but no disagreement was reproduced on the real code" % viol)
     sessions(ctx)
     large_inputs(ctx)
+    repetitions(ctx)
     return finish(ctx, relevant=rel,
                   rule="listed license and exception ids x {lower, upper, alternating} case x {alone, in a 3-term expression, as allowed entry, "
                        "after WITH}; TLC: the scanner model yields the same token for every variant, lists are fold-unique; real code: validity, "
@@ -847,6 +863,7 @@ def c12(ctx):
         raise Infra("model-level invariant %s failed but nothing was reproduced on real data" % viol)
     sessions(ctx)
     large_inputs(ctx)
+    repetitions(ctx)
     return finish(ctx, relevant=rel,
                   rule="one TLC state per listed id (the lists read through the real package) + six whole-list clauses against cmd/*.json "
                        "read by TLC and Gen.tla's rendering of the three files; the real generator is run and its bytes compared; every id is "
@@ -1002,6 +1019,7 @@ def c13(ctx):
                                    "expected": {k: fresh.get(k) for k in keys}, "observed": m["observed"],
                                    "source": "sessions: in-session result vs the same call alone in a fresh process"})
     large_inputs(ctx)
+    repetitions(ctx)
     return finish(ctx, relevant={"argument-mutated", "mutated", "result-depends-on-schedule", "result-depends-on-history", "data-race",
                                  "wrote-to-stdout", "hang"},
                   rule="TLC enumerates every interleaving of the stage steps of 2-3 concurrent calls sharing argument slices; each complete "
@@ -1183,6 +1201,7 @@ def c15(ctx):
     ctx.stages.append({"stage": "long-offsets", "kind": "expressions of 4-8 KB with rewrites far apart, offender at a position known by construction", "cases": lo["cases"]})
     sessions(ctx)
     large_inputs(ctx)
+    repetitions(ctx)
     return finish(ctx, relevant={"offset", "lexeme", "offset-no-error"},
                   rule="valid prefixes (with -or-later forms, '+', spaces, parentheses) x every lexeme sequence up to the bound ending in an "
                        "unknown id, a Ref prefix without a name or a foreign byte; the model scanner's caller-relative position and lexeme "
@@ -1277,6 +1296,7 @@ def c04(ctx):
     ctx.validate_trace("trace")
     sessions(ctx)
     large_inputs(ctx)
+    repetitions(ctx)
     return finish(ctx, relevant=C04_WHATS,
                   rule="every list up to the bound over a 13-string pool as ValidateLicenses argument and as allowed list of three expressions; "
                        "every lexeme text and token sequence as single argument of all three entry points (agreement on validity, result "
@@ -1306,6 +1326,7 @@ def c03(ctx):
     ctx.validate_trace("trace")
     sessions(ctx)
     large_inputs(ctx)
+    repetitions(ctx)
     return finish(ctx, relevant={"panic"},
                   rule="all token-class sequences, lexeme texts (incl. foreign bytes, truncated Ref prefixes), expression trees x allowed "
                        "subsets and argument lists the model enumerates, each run through all three exported functions under recover(); "
@@ -1338,6 +1359,7 @@ def c05(ctx):
     ctx.validate_trace("trace")
     sessions(ctx)
     large_inputs(ctx)
+    repetitions(ctx)
     return finish(ctx, relevant={"validity"},
                   rule="every token-class sequence up to the bound (TLC: descent vs reference grammar, scanner round trip; real code: "
                        "ValidateLicenses/ExtractLicenses/Satisfies on 4 renderings of each) + mutated valid expressions trace-validated; "
